@@ -8,6 +8,7 @@ CONSTANTS
   MaxOpen = 0
   MaxRegs = 0
   Vals = {1}
+  MaxEmit = 0
 VIEW View
 INVARIANTS WellFormed OneRelation TargetNeedsRelation TargetWasIssued RelFilterSelects CachedSelectsSame
 PROPERTY AP
